@@ -683,11 +683,23 @@ def rule_hidden_chains_model(prog, rep, rid):
         ("four molecules under a blank chain identifier", [("", [1, 2, 1, 3])]),
         ("a plain chain, then three molecules under chain B", [("A", [4]), ("B", [2, 2, 2])]),
         ("one molecule per chain", [("A", [3]), ("B", [2])]),
+        # chains that hold no amino acid at all have ends too (nucleic acids) - or none (solvent)
+        ("a peptide chain A, a DNA strand B, an RNA strand C, waters under a blank chain", [("A", [3]), ("B", [4], "DA"), ("C", [3], "RA"), ("", [2], "WAT")]),
+        ("a DNA strand alone", [("D", [3], "DA")]),
+        ("two DNA strands under chain E, then a peptide under chain F", [("E", [2, 3], "DT"), ("F", [2])]),
+        ("waters only, blank chain", [("", [3], "WAT")]),
+        # residue numbers are labels: a jump in the numbering (alignment-based numbering, a repeated number with an insertion code) is no chain end
+        ("a DNA strand, an RNA strand and a peptide numbered with jumps and repeats", [("G", [4], "DA", [1, 2, 5, 6]), ("H", [3], "RU", [7, 7, 30]), ("I", [4], "ALA", [10, 10, 12, 40])]),
     ]
-    for label, layout in scenarios:
+    NUC_ATOMS = ["P", "OP1", "OP2", "O5'", "C5'", "C4'", "C3'", "O3'"]
+    for label, layout_ in scenarios:
         residues, chains, chainmap, molecules = [], [], {}, []
+        kinds = {}
         n = 0
-        for cid, sizes in layout:
+        for entry in layout_:
+            cid, sizes = entry[0], entry[1]
+            kind = entry[2] if len(entry) > 2 else "ALA"
+            numbers = list(entry[3]) if len(entry) > 3 else None
             ch = Obj({"__class__": "Chain", "chain_id": cid, "residues": [], "name": None})
             chains.append(ch)
             chainmap[cid] = ch
@@ -695,11 +707,19 @@ def rule_hidden_chains_model(prog, rep, rid):
                 mol = []
                 for k in range(size):
                     n += 1
+                    if kind == "ALA":
+                        names_ = ["N", "CA", "C", "O"] + (["OXT"] if k == size - 1 else [])
+                    elif kind == "WAT":
+                        names_ = ["O"]
+                    else:
+                        names_ = NUC_ATOMS[(3 if k == 0 else 0):] + (["H3T"] if k == size - 1 else [])
                     amap = {nm: Obj({"__class__": "Atom", "name": nm, "chain_id": cid, "bonds": [], "x": float(4 * n), "y": float(i_), "z": 0.0,
                                      "__props__": {"coords": lambda a_: [a_["x"], a_["y"], a_["z"]]}})
-                            for i_, nm in enumerate(["N", "CA", "C", "O"] + (["OXT"] if k == size - 1 else []))}
-                    res = Obj({"__class__": "ALA", "name": "ALA", "__id__": f"r{n}", "chain_id": cid, "res_seq": n, "ins_code": "", "map": amap,
-                               "atoms": list(amap.values()), "is_n_term": False, "is_c_term": False, "patches": [], "missing": [], "reference": None})
+                            for i_, nm in enumerate(names_)}
+                    res = Obj({"__class__": {"DA": "ADE", "RA": "ADE", "DT": "THY", "RU": "URA"}.get(kind, kind), "name": "HOH" if kind == "WAT" else kind, "__id__": f"r{n}", "chain_id": cid, "res_seq": numbers.pop(0) if numbers else n, "ins_code": "", "map": amap,
+                               "atoms": list(amap.values()), "is_n_term": False, "is_c_term": False, "is5term": False, "is3term": False,
+                               "patches": [], "missing": [], "reference": None})
+                    kinds[res["__id__"]] = kind
                     for a in res["atoms"]:
                         a["residue"] = res
                     residues.append(res)
@@ -731,18 +751,30 @@ def rule_hidden_chains_model(prog, rep, rid):
             problems.append(f"residues in no chain: {lost}; in more than one: {twice}")
         if sorted(map(tuple, got)) != sorted(map(tuple, molecules)):
             problems.append(f"chains {got} are not the molecules {molecules}")
+        pep = [m for m in molecules if kinds[m[0]] == "ALA"]
+        nuc = [m for m in molecules if kinds[m[0]] not in ("ALA", "WAT")]
         nterm = sorted(x["__id__"] for x in residues if x["is_n_term"])
         cterm = sorted(x["__id__"] for x in residues if x["is_c_term"])
-        if nterm != sorted(m[0] for m in molecules) or cterm != sorted(m[-1] for m in molecules):
-            problems.append(f"N-termini {nterm}, C-termini {cterm}; expected {sorted(m[0] for m in molecules)} / {sorted(m[-1] for m in molecules)}")
+        if nterm != sorted(m[0] for m in pep) or cterm != sorted(m[-1] for m in pep):
+            problems.append(f"N-termini {nterm}, C-termini {cterm}; expected {sorted(m[0] for m in pep)} / {sorted(m[-1] for m in pep)}")
+        t5 = sorted(x["__id__"] for x in residues if x["is5term"])
+        t3 = sorted(x["__id__"] for x in residues if x["is3term"])
+        if t5 != sorted(m[0] for m in nuc) or t3 != sorted(m[-1] for m in nuc):
+            problems.append(f"5' ends {t5}, 3' ends {t3}; expected {sorted(m[0] for m in nuc)} / {sorted(m[-1] for m in nuc)} (every strand has its two ends)")
         per_res = {}
         for pn, rid_ in patched:
             per_res.setdefault(rid_, []).append(pn)
         # (a terminal patch may be applied more than once to the same end: the patches are idempotent, which C02 decides on the tables)
-        wrong = {k: v for k, v in per_res.items() if (k not in {m[0] for m in molecules} and any(p_.endswith("NTERM") for p_ in v))
-                 or (k not in {m[-1] for m in molecules} and any(p_.endswith("CTERM") for p_ in v))}
+        firsts, lasts = {m[0] for m in molecules}, {m[-1] for m in molecules}
+        wrong = {k: v for k, v in per_res.items() if (k not in firsts and any(p_.endswith("NTERM") or p_ == "5TERM" for p_ in v))
+                 or (k not in lasts and any(p_.endswith("CTERM") or p_ == "3TERM" for p_ in v)) or kinds[k] == "WAT"}
         if wrong:
             problems.append(f"terminal patches applied to a residue that is not that end of a molecule: {wrong}")
+        unpatched = [m[0] for m in pep if not any(p_.endswith("NTERM") for p_ in per_res.get(m[0], []))] + \
+                    [m[-1] for m in pep if not any(p_.endswith("CTERM") for p_ in per_res.get(m[-1], []))] + \
+                    [m[0] for m in nuc if "5TERM" not in per_res.get(m[0], [])] + [m[-1] for m in nuc if "3TERM" not in per_res.get(m[-1], [])]
+        if unpatched:
+            problems.append(f"chain ends that received no terminal patch: {unpatched}")
         ids = [sorted({x["chain_id"] for x in ch["residues"]} | {a["chain_id"] for x in ch["residues"] for a in x["atoms"]}) for ch in bio["chains"]]
         if any(len(i) != 1 for i in ids) or len({i[0] for i in ids if i}) != len(ids):
             problems.append(f"chain identifiers carried by the residues and atoms of the chains: {ids} (one per chain, all different, expected)")
@@ -865,3 +897,120 @@ def add_hydrogens_on_models(prog):
             continue
         out[label] = (sorted(created), sorted(want))
     return out
+
+
+def rule_who_may_write(prog, rep, rid, title, attrs, owners, floor=2, what="attribute"):
+    """Ownership rule over the resolved program: among the functions reachable from the entry points, the attributes `attrs` are stored only by
+    constructors (initialising their own fresh object) and by the `owners` (key -> reason) - or by a function all of whose reachable callers are
+    owners themselves (a helper factored out of an owner).  A store from anywhere else changes state that the owner set up and the consumers rely
+    on."""
+    from ..callgraph import CallGraph
+    r = rep.rule(rid, title, floor=floor)
+    g = CallGraph(prog)
+    reach = g.reachable()
+    missing = [k for k in owners if k not in prog.funcs]
+    if missing:
+        raise AnalysisError(f"{rid}: owner function(s) {missing} not found")
+    writers = {}
+    for key, f in prog.funcs.items():
+        st = [n for n in walk_no_defs(f.node) if isinstance(n, ast.Attribute) and isinstance(n.ctx, (ast.Store, ast.Del)) and n.attr in attrs]
+        for c in calls_in(f.node):
+            if U(c.func) in ("setattr", "delattr") and len(c.args) >= 2 and isinstance(c.args[1], ast.Constant) and c.args[1].value in attrs:
+                st.append(c)
+        if st:
+            writers[key] = st
+
+    def owned(key, depth=0):
+        if key in owners:
+            return True
+        if depth >= 3:
+            return False
+        cs = [c for c in g.callers(key) if c in reach and c != key]
+        return bool(cs) and all(owned(c, depth + 1) for c in cs)
+
+    for key, st in sorted(writers.items()):
+        f = prog.funcs[key]
+        where = f"pdb2pqr/{f.module.rel}:{st[0].lineno} ({f.qual})"
+        names = sorted({n.attr if isinstance(n, ast.Attribute) else n.args[1].value for n in st})
+        if key not in reach:
+            r.ok(f"writer|{key}", f"stores {names}: unreachable legacy code (excluded; comes back into scope if something calls it)", where)
+        elif f.node.name in ("__init__", "__new__", "__post_init__") and all(isinstance(n, ast.Attribute) and U(n.value) == "self" for n in st):
+            r.ok(f"writer|{key}", f"constructor initialising {names} of its own fresh object", where)
+        elif key in owners:
+            r.ok(f"writer|{key}", f"owner of {names}: {owners[key]}", where)
+        elif owned(key):
+            r.ok(f"writer|{key}", f"stores {names}; called only by the owner(s) of the {what}", where)
+        else:
+            callers = [c for c in g.callers(key) if c in reach][:4]
+            r.bad(f"writer|{key}", f"stores {names} but is neither a constructor nor an owner of the {what}; reached from {callers}", where)
+    if not any(k in writers for k in owners):
+        raise AnalysisError(f"{rid}: no owner stores any of {sorted(attrs)} (anchor vanished)")
+    return r
+
+
+DECORATION_COLUMNS = {"occupancy", "temp_factor"}
+
+
+def rule_decoration_columns_unused(prog, rep, rid, title, scope_calls=(), scope_roots=(), floor=1, what="this step"):
+    """Non-interference rule: the occupancy and temperature-factor columns of a coordinate record describe the experiment, not the model.  The
+    properties state their outcome in terms of names, connectivity and coordinates for every input, so no decision of the step may read those
+    columns.  Scope: every function that directly calls one of `scope_calls` (by method name) or is one of `scope_roots`, and everything such a
+    function calls.  Accepted reads: copying the column onto the same attribute of another object, and rendering it as text (f-string, format,
+    str, %, or an argument of a logging call)."""
+    from ..callgraph import CallGraph
+    r = rep.rule(rid, title, floor=floor)
+    g = CallGraph(prog)
+    roots = {k for k in scope_roots if k in prog.funcs}
+    if len(roots) != len(tuple(scope_roots)):
+        raise AnalysisError(f"{rid}: scope function(s) {sorted(set(scope_roots) - roots)} not found")
+    for key, f in prog.funcs.items():
+        for c in calls_in(f.node):
+            if isinstance(c.func, ast.Attribute) and c.func.attr in scope_calls:
+                roots.add(key)
+    if not roots:
+        raise AnalysisError(f"{rid}: nothing calls any of {sorted(scope_calls)} (anchor vanished)")
+    scope = set()
+    for k in roots:
+        scope |= g.closure(k)
+        scope |= {o for o in prog.funcs if o.startswith(k + ".<locals>.")}
+
+    def rendered(n):
+        p = parent(n)
+        while p is not None and not isinstance(p, ast.stmt):
+            if isinstance(p, (ast.JoinedStr, ast.FormattedValue)):
+                return True
+            if isinstance(p, ast.Call):
+                fn = U(p.func)
+                if fn in ("str", "repr", "format") or fn.split(".")[-1] in ("format", "debug", "info", "warning", "error", "critical", "exception", "log"):
+                    return True
+            if isinstance(p, ast.BinOp) and isinstance(p.op, ast.Mod) and isinstance(p.left, (ast.Constant, ast.JoinedStr)):
+                return True
+            p = parent(p)
+        return False
+
+    def copied(n):
+        p = parent(n)
+        return isinstance(p, ast.Assign) and p.value is n and all(isinstance(t, ast.Attribute) and t.attr == n.attr for t in p.targets)
+
+    n_reads = 0
+    for key in sorted(scope):
+        f = prog.funcs.get(key)
+        if f is None:
+            continue
+        for n in walk_no_defs(f.node):
+            hit = None
+            if isinstance(n, ast.Attribute) and isinstance(n.ctx, ast.Load) and n.attr in DECORATION_COLUMNS:
+                hit = n.attr
+                if copied(n) or rendered(n):
+                    n_reads += 1
+                    continue
+            elif isinstance(n, ast.Call) and U(n.func) == "getattr" and len(n.args) >= 2 and isinstance(n.args[1], ast.Constant) and n.args[1].value in DECORATION_COLUMNS:
+                hit = n.args[1].value
+            if hit:
+                n_reads += 1
+                r.bad(f"read|{key}:{hit}", f"{f.qual} reads the {hit} column in `{U(parent(n) if not isinstance(parent(n), ast.stmt) else n)[:80]}`: a decision of {what} depends on a column "
+                      "that says nothing about the model", f"pdb2pqr/{f.module.rel}:{n.lineno} ({f.qual})")
+    r.info["functions_in_scope"] = len(scope)
+    r.info["scope_roots"] = sorted(roots)[:12]
+    r.add("scope", True, f"{len(scope)} function(s) in scope ({len(roots)} root(s)); {n_reads} read(s) of occupancy / temperature factor examined")
+    return r
